@@ -414,6 +414,78 @@ func accountingBody(nOps int, fib bool, pl []plan) func() {
 	}
 }
 
+// reusedIDBody: the application hands the client two DIFFERENT operations under one id (inside one request, or in a
+// later request while the first is still unanswered). The server answers every distinct id once. Whatever the client
+// does with the second operation, it must not report convergence as if both had been programmed: an operation
+// handed to it would be neither queued, pending nor resulted.
+func reusedIDBody(shape string) func() {
+	return func() {
+		srv := &script{nOps: 1 << 30}
+		stub := wire.New(srv)
+		c := newClient(false)
+		if err := c.UseStub(stub); err != nil {
+			panic(err)
+		}
+		if err := c.Connect(context.Background()); err != nil {
+			panic(err)
+		}
+		a := ribx.Op(1, D, spb.AFTOperation_ADD, ribx.V4Entry("1.0.0.0/8", 1, "", nil))
+		b := ribx.Op(1, D, spb.AFTOperation_ADD, ribx.V4Entry("2.0.0.0/8", 1, "", nil))
+		other := ribx.Op(10, D, spb.AFTOperation_ADD, ribx.NHEntry(10, "1.1.1.1"))
+		for _, o := range []*spb.AFTOperation{a, b, other} {
+			o.ElectionId = &spb.Uint128{Low: 1}
+		}
+		switch shape {
+		case "same-request":
+			c.Q(&spb.ModifyRequest{Operation: []*spb.AFTOperation{a, b}})
+		case "later-request":
+			c.Q(&spb.ModifyRequest{Operation: []*spb.AFTOperation{a}})
+			c.Q(&spb.ModifyRequest{Operation: []*spb.AFTOperation{b}})
+		case "same-request-after-another":
+			c.Q(&spb.ModifyRequest{Operation: []*spb.AFTOperation{other}})
+			c.Q(&spb.ModifyRequest{Operation: []*spb.AFTOperation{a, b}})
+		}
+		c.StartSending()
+		err := c.AwaitConverged(context.Background())
+		rt.Emit("await-returned", fmt.Sprint(err))
+		res, _ := c.Results()
+		keys := map[string]int{}
+		for _, r := range res {
+			if r != nil && r.Details != nil && r.Details.IPv4Prefix != "" {
+				keys[r.Details.IPv4Prefix]++
+			}
+		}
+		nerr := 0
+		if st, serr := c.Status(); serr == nil && st != nil {
+			nerr = len(st.SendErrs) + len(st.ReadErrs)
+		}
+		rt.Emit("reused-final", [3]any{err == nil, fmt.Sprint(keys), nerr})
+		c.Close()
+		rt.Quiesce()
+	}
+}
+
+func checkReusedID(shape string) func(x *rt.Exec) []mc.Fail {
+	return func(x *rt.Exec) []mc.Fail {
+		switch {
+		case x.Crash != "":
+			return []mc.Fail{{Sig: "crash/" + firstLine(x.Crash), What: x.Crash}}
+		case x.Deadlock:
+			return []mc.Fail{{Sig: "C13/client-blocked", What: fmt.Sprintf("%s: blocked: %v", shape, x.Blocked)}}
+		}
+		for _, e := range x.Events {
+			if e.Label != "reused-final" {
+				continue
+			}
+			f := e.Val.([3]any)
+			if f[0].(bool) && f[2].(int) == 0 {
+				return []mc.Fail{{Sig: "C13/converged-although-an-operation-was-lost/reused-id", What: fmt.Sprintf("%s: two different operations were handed to the client under id 1 and the server answered id 1 once; AwaitConverged returned success with no error recorded; results by prefix: %v (one of the two operations is neither queued, pending nor resulted)", shape, f[1])}}
+			}
+		}
+		return nil
+	}
+}
+
 func checkAccounting(nOps int, fib bool) func(x *rt.Exec) []mc.Fail {
 	return func(x *rt.Exec) []mc.Fail {
 		var out []mc.Fail
@@ -571,9 +643,9 @@ func outcome(x *rt.Exec) string {
 // accountingParts lists the C13 shards.
 func accountingParts(tier string) []string {
 	if tier == "thorough" {
-		return []string{"2-ops/rib-ack/rich", "2-ops/fib-ack/rich", "3-ops/rib-ack", "3-ops/fib-ack", "1-op/fib-ack/rich"}
+		return []string{"2-ops/rib-ack/rich", "2-ops/fib-ack/rich", "3-ops/rib-ack", "3-ops/fib-ack", "1-op/fib-ack/rich", "reused-id"}
 	}
-	return []string{"2-ops/rib-ack", "2-ops/fib-ack", "1-op/fib-ack/rich"}
+	return []string{"2-ops/rib-ack", "2-ops/fib-ack", "1-op/fib-ack/rich", "reused-id"}
 }
 
 // RunC13 decides C13 (one shard process per configuration).
@@ -587,6 +659,17 @@ func RunC13(rep *report.Report, tier string) {
 // ChildC13 runs one configuration.
 func ChildC13(rep *report.Report, tier, part string) {
 	dl := ribhist.Budget(tier, 80*time.Second, 20*time.Minute)
+	if part == "reused-id" {
+		bound := 1
+		if tier == "thorough" {
+			bound = 2
+		}
+		for _, shape := range []string{"same-request", "later-request", "same-request-after-another"} {
+			res := mc.DFS(mc.SchedConfig{Name: part + "/" + shape, Body: reusedIDBody(shape), Check: checkReusedID(shape), Outcome: outcome, Bound: bound, SwitchCost: 1, Deadline: dl})
+			merge(rep, "accounting/"+part+"/"+shape, res, bound)
+		}
+		return
+	}
 	n := 2
 	switch {
 	case strings.HasPrefix(part, "3-ops"):
